@@ -1407,6 +1407,10 @@ class RawMap:
 M.comprehension = _comprehension
 
 ABS_LOOP = E.LoopSpec(lambda it, fr, ctx: [])
+# optional resolver of loop contracts for loops that have none registered under their (function, ordinal) key, e.g. after a loop
+# was moved into a helper: fn(it, fr, loop node, iterable, key) -> LoopSpec | None.  Loop contracts are checked hints (init /
+# preserve are obligations), so choosing one by shape cannot make anything unsound.
+LOOP_FALLBACK = [None]
 HAVOC_ALL_LOOP = E.LoopSpec(lambda it, fr, ctx: [], ghost=ALL)
 HAVOC_TRIALS_LOOP = E.LoopSpec(lambda it, fr, ctx: [], ghost=tuple('H.' + f for f in TRIAL_FIELDS + ('talloc',)))
 _prev_symbolic_loop = E.Interp.symbolic_loop
@@ -1450,6 +1454,11 @@ def _symbolic_loop(self, fr, s, it_):
                          for n in ast.walk(s))
         E.LOOPS[key] = HAVOC_ALL_LOOP if touches_mi else HAVOC_TRIALS_LOOP
         added = True
+    if key not in E.LOOPS and LOOP_FALLBACK[0] is not None:
+        spec = LOOP_FALLBACK[0](self, fr, s, it_, key)
+        if spec is not None:
+            E.LOOPS[key] = spec
+            added = True
     old = getattr(self, '_c20_loop', None)
     self._c20_loop = s
     try:
@@ -2515,3 +2524,107 @@ def _fresh_like5(it, v, name):
 
 
 M.fresh_like = _fresh_like5
+
+
+# ------------------------------------------------------------------------------------------ parameter configs with feasible values (Permuting)
+class ParamConfigV:
+    """a ParameterConfig with finitely many feasible values: name, feasible_values (pairwise distinct raw values, as guaranteed by
+    ParameterConfig's sorted-unique normalisation, C16), and the python type of those values (tag: 0 float, 1 str, 2 int)."""
+
+    def __init__(self, name, fv, tag, finite):
+        self.name, self.fv, self.tag, self.finite = name, fv, tag, finite
+
+
+class NpArrayV(VList):
+    """numpy array produced from a list of python values: elements are numpy scalars of the list's element type."""
+    pass
+
+
+def make_param_config(run, name, k):
+    n = z3.Int('nfeas_%d' % k)
+    arr = z3.Const('feas_%d' % k, z3.ArraySort(z3.IntSort(), PVal))
+    fidx = z3.Const('feasidx_%d' % k, z3.ArraySort(PVal, z3.IntSort()))
+    run.assume(n >= 0)
+    j = z3.Int('j!pc')
+    run.axiom(z3.ForAll([j], z3.Implies(z3.And(j >= 0, j < n), fidx[arr[j]] == j)))      # pairwise distinct
+    fv = VList(n, arr, K_RAW)
+    fv.fidx = fidx
+    return ParamConfigV(name, fv, z3.Int('feastype_%d' % k), z3.Bool('finite_feasible_%d' % k))
+
+
+def rng_permuted(it, rng, args, kw):
+    """numpy Generator.permuted(x) (assumed contract): a permutation of x's entries, as an ndarray (numpy scalars)."""
+    run = it.run
+    xs = args[0]
+    if not (isinstance(xs, VList) and xs.kind is K_RAW):
+        return Abs('permuted')
+    k = len(getattr(run, 'permutations', []))
+    sig = run.fresh('sigma', z3.ArraySort(z3.IntSort(), z3.IntSort()))
+    tau = run.fresh('tau', z3.ArraySort(z3.IntSort(), z3.IntSort()))
+    arr = run.fresh('permuted', z3.ArraySort(z3.IntSort(), PVal))
+    j = z3.Int('j!pm')
+    inr = z3.And(j >= 0, j < xs.n)
+    run.axiom(z3.ForAll([j], z3.Implies(inr, z3.And(sig[j] >= 0, sig[j] < xs.n, tau[sig[j]] == j, arr[j] == xs.arr[sig[j]]))))
+    run.axiom(z3.ForAll([j], z3.Implies(inr, z3.And(tau[j] >= 0, tau[j] < xs.n, sig[tau[j]] == j))))
+    r = NpArrayV(xs.n, arr, K_RAW)
+    r.source, r.sigma, r.tau = xs, sig, tau
+    run.permutations = getattr(run, 'permutations', []) + [r]
+    return r
+
+
+class RngV:
+    pass
+
+
+def _pc_getattr(it, v, a):
+    if isinstance(v, ParamConfigV):
+        if a == 'name':
+            return v.name
+        if a == 'feasible_values':
+            return v.fv
+        if a == 'num_feasible_values':
+            return v
+        return Abs('parameter_config.' + a)
+    if isinstance(v, RngV):
+        if a == 'permuted':
+            return _bi('permuted', lambda it_, args, kw: rng_permuted(it_, v, args, kw))
+        return Abs('rng.' + a)
+    return M.MISSING
+
+
+_chain('value_getattr_hook', _pc_getattr)
+
+_prev_isfinite = E.EXTERNAL['numpy.isfinite'].fn
+
+
+def _np_isfinite(it, args, kw):
+    if args and isinstance(args[0], ParamConfigV):
+        return args[0].finite
+    return _prev_isfinite(it, args, kw)
+
+
+E.EXTERNAL['numpy.isfinite'] = Builtin('numpy.isfinite', _np_isfinite)
+_prev_default_rng = E.EXTERNAL['numpy.random.default_rng'].fn
+E.EXTERNAL['numpy.random.default_rng'] = Builtin('numpy.random.default_rng', lambda it, args, kw: RngV() if getattr(it.run, 'space_model', None) else _prev_default_rng(it, args, kw))
+
+_prev_obj_getattr6 = M.obj_getattr
+
+
+def _obj_getattr6(it, o, a):
+    if isinstance(o, Obj) and o.cls == 'SearchSpace' and a == 'get' and getattr(it.run, 'space_model', None) is not None:
+        return _bi('SearchSpace.get', lambda it_, args, kw: it_.run.space_model(it_, args[0]))
+    return _prev_obj_getattr6(it, o, a)
+
+
+M.obj_getattr = _obj_getattr6
+
+_prev_truth6 = M.truth_hook
+
+
+def _truth6(it, v):
+    if isinstance(v, (ParamConfigV, RngV, RawMap)):
+        return True
+    return _prev_truth6(it, v)
+
+
+M.truth_hook = _truth6
